@@ -20,6 +20,13 @@ CONTRACTS = {
                             "spec": "spec__value_to_blackbird", "props": ["C01", "C09", "C15", "C19"], "families": ["roundtrip", "api_serialize"]},
     "numpy_to_blackbird": {"params": ["A", "var_name"], "reads": [], "modifies": [], "raises": "any", "spec": "spec_numpy_to_blackbird",
                            "props": ["C01", "C09"], "families": ["api_serialize", "roundtrip"]},
+    "_bind_parameters": {"params": ["v", "values"], "reads": [], "modifies": [], "raises": "any", "spec": "spec__bind_parameters",
+                         "props": ["C04", "C07", "C13"], "families": ["template_subst"]},
+    "__call__": {"qual": "BlackbirdProgram.__call__", "params": ["self"], "kwarg": "kwargs", "reads": ["self._parameters", "self._operations", "self._var"],
+                 "modifies": [], "raises": "any", "spec": "spec_call", "props": ["C04", "C07", "C13"], "families": ["template_subst", "readonly_ops"]},
+    "serialize": {"qual": "BlackbirdProgram.serialize", "params": ["self"],
+                  "reads": ["self._name", "self._version", "self._target", "self._type", "self._operations", "self._var"], "modifies": [], "raises": "any",
+                  "spec": "spec_serialize", "props": ["C01", "C09", "C15", "C13", "C19"], "families": ["roundtrip", "api_serialize", "tdm"]},
     "BlackbirdProgram": {"qual": "BlackbirdProgram.__init__", "ctor": True, "params": ["self", "name", "version"],
                          "defaults": {"name": "blackbird_program", "version": "1.0"}, "reads": [], "modifies": [], "raises": [],
                          "spec": "spec_BlackbirdProgram_init", "props": ["C12", "C02"], "fields": ["_var", "_forvar", "_modes", "_name", "_version", "_target",
@@ -148,3 +155,126 @@ def spec_is_template(self):
 
 def spec_len(self):
     return len(self._operations)
+
+
+def spec__bind_parameters(v, values):
+    # C04: SUBST(v, values) on every value kind that can hold a parameter
+    if isinstance(v, sym.Expr):
+        par = list(v.free_symbols)
+        func = sym.lambdify(par, v)
+        try:
+            vals = [values[str(p)] for p in par]                   # one enumeration `par` for the function and the values: bound by position
+        except KeyError:
+            raise ValueError("Invalid value for free parameter provided")   # a missing value is refused
+        return func(*vals)
+    if isinstance(v, list):
+        return [_bind_parameters(i, values) for i in v]            # lists element by element
+    if isinstance(v, np.ndarray):
+        populated_array = copy.deepcopy(v)                         # never the template's own array
+        if v.dtype == object:
+            for idx in np.ndindex(v.shape):
+                populated_array[idx] = _bind_parameters(v[idx], values)
+            if not any(isinstance(i, sym.Expr) for i in populated_array.flat):
+                populated_array = np.array(populated_array.tolist())
+        return populated_array
+    return v
+
+
+def spec_call(self, **kwargs):
+    if not self.parameters:
+        raise ValueError("Program is not a template!")
+    prog = copy.deepcopy(self)                                     # C13: the instance shares nothing with the template
+    prog._parameters = []                                          # C04: an instantiated program has no free parameters left
+    new_kwargs = copy.deepcopy(kwargs)
+    for k, v in kwargs.items():
+        if isinstance(v, Iterable):
+            if np.ndim(v) != 2:
+                raise ValueError("Invalid dim for free parameter provided. Must have dim 2.")
+            added_kwargs = {k + "_{}_{}".format(i, j): val for i, row in enumerate(v) for j, val in enumerate(row)}   # name_i_j per element
+            new_kwargs.update(added_kwargs)
+            del new_kwargs[k]
+    kwargs = new_kwargs
+    for op in prog._operations:
+        if "args" not in op:
+            continue
+        for idx, a in enumerate(op["args"]):
+            op["args"][idx] = _bind_parameters(a, kwargs)
+        for k, v in op["kwargs"].items():
+            op["kwargs"][k] = _bind_parameters(v, kwargs)
+    for k, v in prog._var.items():
+        prog._var[k] = _bind_parameters(v, kwargs)
+    return prog
+
+
+def spec_serialize(self):
+    var_count = 0
+    array_insert = 3
+    script = ["name {}".format(self.name), "version {}".format(self.version)]
+    for name, data in [("target", self.target), ("type", self.programtype)]:
+        if data["name"] is not None:
+            array_insert += 1
+            options = ""
+            if data["options"]:
+                option_strings = []
+                for k, v in data["options"].items():
+                    option_strings.append("{}={}".format(k, _value_to_blackbird(v)))       # C09: options in canonical form too
+                options = " ({})".format(", ".join(option_strings))
+            script.append("{} {}{}".format(name, data["name"], options))
+    script.append("")
+    if self.programtype["name"] == "tdm":
+        inv_type_map = {np.dtype(v).kind: k for k, v in NUMPY_TYPES.items()}
+        for k, v in self._var.items():
+            if not (_is_ptype(k) and isinstance(v, np.ndarray)):
+                continue                                             # C15: only p-arrays are declared
+            var_type = inv_type_map[np.array(v).dtype.kind]
+            array_string = ""
+            if isinstance(v, Iterable):
+                for row in v:
+                    array_string += "\n    " + "".join("{}, ".format(i) for i in row)[:-2]
+                script.append("{} array {} ={}".format(var_type, k, array_string))
+            else:
+                script.append("{} array {} =\n{}".format(var_type, k, v))
+        script.append("")
+    is_tdm = self.programtype["name"] == "tdm"
+    for op in self.operations:
+        if len(op["modes"]) == 1:
+            modes = op["modes"][0]
+        else:
+            modes = "[{}]".format(", ".join("{}".format(m) for m in op["modes"]))         # written order, plain integers
+        if "args" in op:
+            args = []
+            kwargs = []
+            for v in op["args"]:
+                if isinstance(v, np.ndarray):
+                    var_name = "A{}".format(var_count)
+                    args.append(var_name)
+                    var_count += 1
+                    bb_array = numpy_to_blackbird(v, var_name)
+                    for idx, line in enumerate(bb_array):
+                        script.insert(array_insert + idx, line)      # declarations go after the metadata, in order of first use
+                    array_insert += len(bb_array)
+                else:
+                    args.append(_value_to_blackbird(v, is_tdm))
+            for k, v in op["kwargs"].items():
+                if isinstance(v, np.ndarray):
+                    var_name = "A{}".format(var_count)
+                    kwargs.append("{}={}".format(k, var_name))
+                    var_count += 1
+                    bb_array = numpy_to_blackbird(v, var_name)
+                    for idx, line in enumerate(bb_array):
+                        script.insert(array_insert + idx, line)
+                    array_insert += len(bb_array)
+                else:
+                    kwargs.append("{}={}".format(k, _value_to_blackbird(v, is_tdm)))
+            if args and kwargs:
+                arguments = "({}, {})".format(", ".join(args), ", ".join(kwargs))
+            elif not kwargs:
+                arguments = "({})".format(", ".join(args))
+            elif not args:
+                arguments = "({})".format(", ".join(kwargs))
+            script.append("{}{} | {}".format(op["op"], arguments, modes))
+        else:
+            script.append("{} | {}".format(op["op"], modes))
+    if script[-1] != "":
+        script.append("")
+    return "\n".join(script)
